@@ -412,9 +412,11 @@ pub fn exec_op(ctx: &Arc<Ctx>, op: &Op, caller: usize, nested: bool, local: &mut
                 while s.verif_busy_count() > 0 { rt::thread::yield_now(); }
             }
             // 'at once' with every other caller inert (it only opens gates or yields) and nothing but plain desync/sync issued by this caller
-            // before: every scheduling call that could have read the old maximum has returned, the busy pool threads make their next ones
-            // after the store - despawn_threads_if_overloaded must still not return before the surplus threads are gone
-            let inert_others = !quiet && ctx.prog.callers.iter().enumerate().all(|(c, ops)| if c == caller { ops.iter().all(|o| matches!(o, Op::Desync(_, _) | Op::Sync(_, _) | Op::SetMax(_) | Op::Yield(_) | Op::Open(_))) } else { ops.iter().all(|o| matches!(o, Op::Open(_) | Op::Yield(_))) });
+            // before, none of them with a nested operation in its body (a job that schedules work makes a spawn decision on ITS pool thread,
+            // which can have read the old maximum: the stale-maximum race of DESIGN 9.6 - a false alarm of the first version of this rule):
+            // every scheduling call that could have read the old maximum has returned and pool threads running plain closures make none -
+            // despawn_threads_if_overloaded must still not return before the surplus threads are gone
+            let inert_others = !quiet && ctx.prog.callers.iter().enumerate().all(|(c, ops)| if c == caller { ops.iter().all(|o| match o { Op::Desync(_, b) | Op::Sync(_, b) => !b.iter().any(|p| matches!(p, Prim::Nested(_))), Op::SetMax(_) | Op::Yield(_) | Op::Open(_) => true, _ => false }) } else { ops.iter().all(|o| matches!(o, Op::Open(_) | Op::Yield(_))) });
             let clean = (quiet && single) || inert_others;
             if n > ctx.max_ever.load(SeqCst) { ctx.max_ever.store(n, SeqCst); }
             desync::verif::log("api", "SETMAX", n, String::new());
